@@ -210,6 +210,7 @@ struct Global
   long long mono0 = 0, real0 = 0;
   std::atomic<long long> vadv{0};
   std::atomic<long> unfairJumps{0};
+  int idleStreak = 0; // consecutive scheduling decisions with no normally enabled thread (guarded by the scheduler lock)
 };
 Global *G = nullptr;
 thread_local Th *t_cur = nullptr;
@@ -251,12 +252,16 @@ int atPoint(Th *t, int op, void *a, void *b, bool timed, const char *label = nul
     {
       // a spinning thread is treated as sleeping for a tiny, exponentially growing virtual time (1 us .. 100 ms): it never
       // starves sleepers and timed waiters, and they never overtake it by more than that
-      long long back = 1000LL << (t->yieldStreak < 17 ? t->yieldStreak : 17);
+      // (the exponent also grows while the whole system is idle - only sleepers, spinners and timed waiters left -, so a
+      // poll loop that passes a labelled point or takes a lock between two yields still lets virtual time reach the next
+      // deadline in a few dozen steps instead of hundreds of thousands)
+      int streak = t->yieldStreak > G->idleStreak ? t->yieldStreak : G->idleStreak;
+      long long back = 1000LL << (streak < 17 ? streak : 17);
       if (back > 100000000LL) back = 100000000LL;
       t->wakeAt = G->vadv.load() + back;
       ++t->yieldStreak;
     }
-    else if (op != OpSleep && op != OpResume)
+    else if (op != OpSleep && op != OpResume && op != OpPoint)
       t->yieldStreak = 0;
     t->state = AtPoint;
     g = t->go.load(std::memory_order_relaxed);
@@ -1031,6 +1036,10 @@ Result run()
     }
     s.enabled = normal;
     for (int x : lowDue) s.enabled.push_back(x);
+    {
+      Lock l;
+      G->idleStreak = normal.empty() ? G->idleStreak + 1 : 0;
+    }
     if (stepLog) fprintf(stderr, "[step %d] %s/%s%s\n", step, s.thread.c_str(), s.op.c_str(), fromPlan ? " (plan)" : "");
     res.steps.push_back(std::move(s));
     last = pick;
